@@ -610,8 +610,9 @@ class Coder(object):
                 state.bitmap_definition_state = BITMAP_INDICATOR
                 state.mark_back_reference_boundary()
                 self.process_constant(state, bit_operator, descriptor, 0)
-                if operator_code == 222:
-                    state.status_qa_info_follows = QA_INFO_WAITING
+                # Only 222000 announces quality information; any other of these
+                # operators ends a pending announcement
+                state.status_qa_info_follows = QA_INFO_WAITING if operator_code == 222 else QA_INFO_NA
             else:  # 255 for markers (this does not apply to 222)
                 self.process_marker_operator_descriptor(state, bit_operator, descriptor)
 
